@@ -275,6 +275,20 @@ theorem real_keys_total (a b c : Bytes) (c2 : Nat) :
 /-- non-vacuity: "1.5" < "1.50" < "2" — fraction tie broken by the bytes; integer part decides -/
 example : Cmp.afcmp [49, 46, 53] [49, 46, 53, 48] < 0 ∧ Cmp.afcmp [49, 46, 53, 48] [50] < 0 := by decide
 
+/-- Real-number keys through `_cmp_keys`, both layouts (`Cmp.cmpR c x y`: `x = (text, compound part)` as
+    stored, `y` the lookup key): antisymmetric, zero exactly on identical keys (in the plain layout the
+    compound part is not part of the key), transitive. Stored keys are non-empty (`iwkv_put` rejects
+    `key->size == 0`); for an empty stored text the compound branch of `_cmp_keys_prefix` returns the
+    length of the lookup key without looking at the compound parts. -/
+theorem real_keys_total_both (c : Bool) (x y z : Bytes × Nat) (hx : x.1 ≠ []) (hy : y.1 ≠ []) :
+    sgn (Cmp.cmpR c x y) = - sgn (Cmp.cmpR c y x) ∧
+    (Cmp.cmpR c x y = 0 ↔ x.1 = y.1 ∧ (c = true → x.2 = y.2)) ∧
+    (Cmp.cmpR c x y > 0 → Cmp.cmpR c y z > 0 → Cmp.cmpR c x z > 0) := Cmp.cmpR_total c x y z hx hy
+
+/-- non-vacuity: same text "1.5", compound parts 3 < 4 -/
+example : Cmp.cmpR true ([49, 46, 53], 3) ([49, 46, 53], 4) > 0 := by
+  rw [Cmp.cmpR_true _ _ (by simp)]; decide
+
 /-! ## comparison through the cached key prefix (`_lx_sblk_cmp_key`) -/
 
 /-- Byte keys, plain layout: comparing the lookup key with a node through the cached prefix of the
@@ -285,38 +299,43 @@ theorem prefix_agrees_plain (full k : Bytes) (c2 : Nat) :
     sgn (Cmp.lxCmp .plain false full k c2) = sgn (Cmp.cmpKeys .plain false full k c2) :=
   Cmp.lxCmp_plain_nc full k c2
 
-/-- Byte keys, compound layout — PARTIAL: holds when the `ksize < lkl` short-cut is taken only if the
-    lookup body really is shorter than the cached body (`hS`), e.g. when the vnum of the stored
-    compound part is not longer than that of the lookup key's. Without `hS` the C code is wrong, see
-    `prefix_disagrees_compound_witness`. `hL`: the compound vnum (≤ 10 bytes) fits the cache. -/
-theorem prefix_agrees_compound_partial (body k : Bytes) (c1 c2 : Nat)
-    (hL : (Vnum.enc c1).length < Gen.PREFIX_KEY_LEN_V2)
-    (hS : k.length + Vnum.size c2 < Gen.PREFIX_KEY_LEN_V2 →
-          k.length + (Vnum.enc c1).length < Gen.PREFIX_KEY_LEN_V2) :
+/-- Byte keys, compound layout (code after fix 1a3b861, finding F39): the comparison through the cached
+    prefix has the same sign as the comparison with the full stored key `vnum(c1) ++ body`, for EVERY
+    body, lookup key and pair of compound parts; `hL`: the compound vnum fits the cache. -/
+theorem prefix_agrees_compound (body k : Bytes) (c1 c2 : Nat)
+    (hL : (Vnum.enc c1).length < Gen.PREFIX_KEY_LEN_V2) :
     sgn (Cmp.lxCmp .plain true (Cmp.stored true body c1) k c2)
       = sgn (Cmp.cmpKeys .plain true (Cmp.stored true body c1) k c2) :=
-  Cmp.lxCmp_plain_c body c1 k c2 hL hS
+  Cmp.lxCmp_plain_c body c1 k c2 hL
 
-/-- the usual case of `prefix_agrees_compound_partial`: stored compound part in `[0, 2^63)` and a lookup compound part whose
-    `IW_VNUMSIZE` is the same (in particular equal compound parts) -/
-theorem prefix_agrees_compound_same_size (body k : Bytes) (c1 c2 : Nat) (h1 : c1 < 2 ^ 63)
-    (hs : Vnum.size c1 = Vnum.size c2) :
+/-- `prefix_agrees_compound` for every compound part the encoder accepts (`[0, 2^63)`, at most
+    `IW_VNUMBUFSZ` = 10 bytes < 115), with the side condition on the generated constants discharged -/
+theorem prefix_agrees_compound64 (body k : Bytes) (c1 c2 : Nat) (h1 : c1 < 2 ^ 63) :
     sgn (Cmp.lxCmp .plain true (Cmp.stored true body c1) k c2)
       = sgn (Cmp.cmpKeys .plain true (Cmp.stored true body c1) k c2) := by
-  have e1 := ((vnum_size c1 (by omega)).1 h1).2
   have l1 := Cmp.enc_length_le10 h1
   have hP : Gen.IW_VNUMBUFSZ < Gen.PREFIX_KEY_LEN_V2 := by decide
-  exact prefix_agrees_compound_partial body k c1 c2 (by omega) (by rw [e1, hs]; exact id)
+  exact prefix_agrees_compound body k c1 c2 (by omega)
+
+/-- numeric and real-number modes never use the prefix short-cut with a truncated key: their keys
+    (≤ 10 bytes, resp. compared as a whole) — the code calls `_cmp_keys` on the cached bytes, which
+    are the whole stored key whenever it fits the cache -/
+theorem prefix_agrees_short (mode : Cmp.Mode) (compound : Bool) (full k : Bytes) (c2 : Nat)
+    (h : full.length ≤ Gen.PREFIX_KEY_LEN_V2) :
+    Cmp.lxCmp mode compound full k c2 = Cmp.cmpKeys mode compound full k c2 := by
+  simp [Cmp.lxCmp, h, List.take_of_length_le h]
 
 set_option maxRecDepth 100000 in
-/-- DEFECT of `_lx_sblk_cmp_key` exhibited by the model (and confirmed on the C code): stored key
-    = 120 × 0x05 with compound part 20000 (3-byte vnum), lookup key = 112 × 0x05 ++ 0x04 with compound
-    part 0 (1-byte vnum). The full comparison says the lookup key is smaller (first difference at
-    byte 112), the cached-prefix path says it is greater: `ksize = 113 + 1 < 115` takes the short-cut
-    although the cached body has only 115 - 3 = 112 bytes. -/
-theorem prefix_disagrees_compound_witness :
-    Cmp.lxCmp .plain true (Cmp.stored true (List.replicate 120 5) 20000) (List.replicate 112 5 ++ [4]) 0 = 1 ∧
-    Cmp.cmpKeys .plain true (Cmp.stored true (List.replicate 120 5) 20000) (List.replicate 112 5 ++ [4]) 0 = -1 := by
+/-- The DEFECT fixed by 1a3b861 (finding F39), stated on the model of the OLD rule `Cmp.lxCmpOld`
+    (`ksize += IW_VNUMSIZE(key->compound)`): stored key = 120 × 0x05 with compound part 20000 (3-byte
+    vnum), lookup key = 112 × 0x05 ++ 0x04 with compound part 0 (1-byte vnum). The full comparison
+    says the lookup key is smaller (first difference at byte 112), the old cached-prefix path said it
+    is greater: `ksize = 113 + 1 < 115` took the short-cut although the cached body has only
+    115 - 3 = 112 bytes. The fixed rule agrees (`prefix_agrees_compound`). -/
+theorem prefix_old_rule_disagrees_witness :
+    Cmp.lxCmpOld .plain true (Cmp.stored true (List.replicate 120 5) 20000) (List.replicate 112 5 ++ [4]) 0 = 1 ∧
+    Cmp.cmpKeys .plain true (Cmp.stored true (List.replicate 120 5) 20000) (List.replicate 112 5 ++ [4]) 0 = -1 ∧
+    Cmp.lxCmp .plain true (Cmp.stored true (List.replicate 120 5) 20000) (List.replicate 112 5 ++ [4]) 0 = -1 := by
   have e : Vnum.enc 20000 = [223, 227, 1] := by
     rw [Vnum.enc, dif_neg (by decide), Vnum.enc, dif_neg (by decide), Vnum.enc, dif_pos (by decide)]
   simp only [Cmp.stored, e, if_true]
@@ -328,6 +347,6 @@ example : sgn (Cmp.lxCmp .plain false (List.replicate 120 5 ++ [9]) (List.replic
 
 example : sgn (Cmp.lxCmp .plain true (Cmp.stored true (List.replicate 120 5) 300) (List.replicate 119 5 ++ [7]) 200)
     = sgn (Cmp.cmpKeys .plain true (Cmp.stored true (List.replicate 120 5) 300) (List.replicate 119 5 ++ [7]) 200) :=
-  prefix_agrees_compound_same_size _ _ 300 200 (by decide) (by decide)
+  prefix_agrees_compound64 _ _ 300 200 (by decide)
 
 end IwModel.C19
